@@ -7,7 +7,7 @@ from sim.seams import Env
 
 PROPERTY = "C09"
 LEVEL = "exploration"
-SCENARIOS = {"vars": 1, "dict": 1}
+SCENARIOS = {"vars": 3, "dict": 3, "dict-strings": 1}
 TIERS = {"quick": {"runs": 8000, "chunk": 25}, "thorough": {"runs": 50000000, "wall_s": 600, "chunk": 150, "recheck": 16}}
 RULE = ("'vars': 1-6 hash-map variables with drawn formats (12% with a byte-order prefix) "
         "and defaults, a generated program that keeps live values in up to 2 of r2-r9 and "
@@ -21,7 +21,8 @@ RULE = ("'vars': 1-6 hash-map variables with drawn formats (12% with a byte-orde
         "looks up + modifies a member + marks the Else branch, and a history of inserts, "
         "lookups ([], get, in), updates, deletes, pops, popitem, clear and key/item iteration "
         "from both sides including absent keys and a full "
-        "map; every observation on either side is compared with a reference dict (64-bit "
+        "map; 'dict-strings': key/value structures with byte-string members used from Python "
+        "with strings shorter than their field; every observation on either side is compared with a reference dict (64-bit "
         "cells; key bytes -> value bytes by independent struct packing); two-party histories, "
         "no timing dimension; distinct = distinct (declarations, history) digests; "
         "non-trivial = at least 4 operations with at least one from each side")
@@ -564,6 +565,133 @@ def run_dict(tape, env, viol, history, want_c10=False):
     return desc
 
 
+def run_dict_strings(tape, env, viol, history):
+    """a Dict whose key and value structures have byte-string members ('4s', '16s', ...)
+    next to integers, used from Python only (set, get, in, pop, del, iteration) with
+    strings shorter than, or as long as, their field: what is read back is what was
+    stored, padded with NUL bytes"""
+    from ebpfcat.ebpf import Member, Structure
+    from ebpfcat.hashmap import Dict
+    from ebpfcat.xdp import XDP, XDPExitCode
+    kernel = env.kernel
+
+    def gen_struct(name, label):
+        fmts = [tape.pick(f"{label}/fmt", ["16s", "8s", "4s", "2s", "Q", "I", "H", "B"])
+                for _ in range(1 + tape.draw(f"{label}/n", 4))]
+        if not any(f.endswith("s") for f in fmts):
+            fmts.append("4s")
+        fmts.sort(key=lambda f: -struct.calcsize(f))
+        if tape.chance(f"{label}/string-last", 60):
+            # (the string as the last member, or set last: whatever its setter does to
+            # the structure is not repaired by the next member)
+            fmts.sort(key=lambda f: (-struct.calcsize(f), f.endswith("s")))
+        return type(name, (Structure,), {f"m{i}": Member(f) for i, f in enumerate(fmts)}), fmts
+    Key, kf = gen_struct("SKey", "c09s/key")
+    Value, vf = gen_struct("SValue", "c09s/value")
+    size = 2 + tape.draw("c09s/size", 4)
+    P = type("P", (XDP,), {"license": "GPL", "minimumPacketSize": 20,
+                           "table": Dict(Key, Value, size=size),
+                           "program": lambda self: self.exit(XDPExitCode.PASS)})
+    desc = dict(key=kf, value=vf, size=size, strings=True)
+    try:
+        p = P()
+        p.load()
+    except Exception as e:
+        viol("program-cannot-be-generated", f"{type(e).__name__}: {e}; {desc}",
+             exception=type(e).__name__, part="dict-strings")
+        return desc
+
+    def draw_vals(fmts, label):
+        out = []
+        for f in fmts:
+            if f.endswith("s"):
+                n = int(f[:-1])
+                k = tape.pick(f"{label}/strlen", [n, n, n - 1, 1, 0, n // 2])
+                out.append(tape.bytes(f"{label}/str", k) if k else b"")
+            else:
+                out.append(draw_in_range(tape, f, label))
+        return tuple(out)
+
+    def padded(fmts, vals):
+        return tuple(v + bytes(int(f[:-1]) - len(v)) if f.endswith("s") else v
+                     for f, v in zip(fmts, vals))
+
+    def mk(cls, vals, order=None):
+        s = cls()
+        idx = list(range(len(vals)))
+        for i in (order or idx):
+            setattr(s, f"m{i}", vals[i])
+        return s
+
+    def read(obj, fmts):
+        return tuple(getattr(obj, f"m{i}") for i in range(len(fmts)))
+    keypool = [draw_vals(kf, "c09s/keyval") for _ in range(2 + tape.draw("c09s/nkeys", 3))]
+    model = {}
+    for step in range(4 + tape.draw("c09s/nops", 16)):
+        key = tape.pick("c09s/key", keypool)
+        pk = padded(kf, key)
+        op = tape.draw("c09s/op", 5)
+        where = f"op {step}"
+        if op == 4 and not model:
+            op = 0          # iterating an empty Dict is not judged (see ASSUMPTIONS)
+        try:
+            if op == 0:
+                val = draw_vals(vf, "c09s/val")
+                try:
+                    p.table[mk(Key, key)] = mk(Value, val)
+                    ok = True
+                except IndexError:
+                    ok = False
+                full = pk not in model and len(model) >= size
+                if ok != (not full):
+                    viol("python-insert-failed" if not ok else "insert-into-full-map-succeeded",
+                         f"{where}: {len(model)} of {size} entries, key present: {pk in model}")
+                if ok:
+                    model[pk] = padded(vf, val)
+                history.append(("py_set", ok))
+            elif op == 1:
+                try:
+                    got = read(p.table[mk(Key, key)], vf)
+                except KeyError:
+                    got = None
+                if got != model.get(pk):
+                    viol("python-lookup-differs", f"{where}: key {pk}: Python sees {got}, "
+                         f"model {model.get(pk)}", side="python", strings=True)
+                history.append(("py_get", got is not None))
+            elif op == 2:
+                present = mk(Key, key) in p.table
+                if present != (pk in model):
+                    viol("python-lookup-differs", f"{where}: key {pk} in table is {present}, "
+                         f"model {pk in model}", side="python", strings=True)
+                history.append(("py_in", present))
+            elif op == 3:
+                try:
+                    got = read(p.table.pop(mk(Key, key)), vf)
+                except KeyError:
+                    got = None
+                if got != model.pop(pk, None):
+                    viol("python-lookup-differs", f"{where}: pop({pk}) returned {got}",
+                         side="python", strings=True)
+                history.append(("py_pop", got is not None))
+            else:
+                keys = set()
+                for n_seen, k in enumerate(p.table):
+                    if n_seen > 4 * size + 8:
+                        raise RuntimeError("iteration over the Dict does not end")
+                    keys.add(read(k, kf))
+                if keys != set(model):
+                    viol("python-iteration-differs", f"{where}: keys {sorted(keys)} vs model "
+                         f"{sorted(model)}", strings=True)
+                history.append(("py_iter",))
+        except (Exception, SimStall) as e:
+            viol("python-operation-raised", f"{where}: {type(e).__name__}: {e}; history "
+                 f"{history[-3:]}", exception=type(e).__name__, strings=True)
+        if viol.any():
+            break
+    history.append(("run",))       # (two-party marker: the program is loaded and could run)
+    return desc
+
+
 def run(tape, scenario, want_c10=False):
     import hashlib
     possible = 2 + tape.draw("c09/cpus", 3)
@@ -580,6 +708,7 @@ def run(tape, scenario, want_c10=False):
     with env:
         try:
             desc = (run_vars(tape, env, viol, history, want_c10) if scenario == "vars"
+                    else run_dict_strings(tape, env, viol, history) if scenario == "dict-strings"
                     else run_dict(tape, env, viol, history, want_c10))
         except Exception as e:
             # the library raised where the workload does not expect it (the harness' own
